@@ -4,6 +4,11 @@ import json, os
 HERE = os.path.dirname(os.path.abspath(__file__))
 
 CLAIMED = {
+ 'C14': dict(
+   text='PARTIAL. That each collection contains a minimum basis is value-level and not claimed. Decided: every construction site of a CandidateCycle / SerializableCandidateCycle is reached only when the edge is not a predecessor edge of the tree, both endpoints have tree nodes and their first-in-path labels differ (exact path condition, truth table) - with a tree-shaped predecessor structure this makes the candidate a simple cycle through the root; the recorded weight is W[e] + weight(node(source e)) + weight(node(target e)) for that same edge and tree; the root node has weight zero; every visited tree node including the root gets a first-in-path label; the FVS collection is create_candidate_cycles() of trees rooted exactly at the greedy_fvs output and the isometric collection re-emits only (tree, edge) pairs read back from guarded Horton candidates (sub-collections by provenance); the lexicographic comparator behind the trees is consistent per rung.',
+   note='Assumes lex_dijkstra yields a shortest-path tree with exact distances (C12, value-level).',
+   technique='exact CFG path conditions with truth tables over guard atoms, term-set comparison of the weight expression, provenance tracing, definite-labelling rule',
+   ref='DESIGN.md §4 C14'),
  'C18': dict(
    text='PARTIAL. Numeric values of gcds/inverses and primality by trial division are value-level and not claimed. Decided: in ext_gcd a path-sensitive abstract interpretation of the bool locals (contents "a<0", "b<0", true, false; std::swap and copies tracked; branches on known flags pruned) shows that every sign selector flowing into the coefficient of a holds "a was negative" and likewise for b, on every path; a symbolic interval analysis with bounds linear in p (sum, product, % p, the two normalisation while-loops or a single conditional subtraction, v != 0 guards) shows that every value pushed into an SpVecFP lies in [1, p-1]; operator+ and the dot product have the merge action tables of index-wise addition / inner product with both tails; compound operators are alias-safe and copy operations member-wise; a constant-divisor shortcut in is_prime never calls the divisor itself composite; get_mult_inverse throws unless the gcd is 1 and returns the coefficient of its first argument.',
    note='Induction hypothesis: stored entries are in [1,p-1] and both operands share p >= 2; % truncates toward zero. Multiprecision instantiations are covered only in so far as they instantiate the same templates.',
